@@ -442,6 +442,11 @@ def run_save(recipe: dict, plan: dict | None, root: str, retry: bool = True) -> 
                                 d = diff_snapshot(snap0, snapshot(model))
                                 if d:
                                     rec["violations"].append({"class": "model-changed", "detail": ["after saving onto the first destination again"] + d[:5]})
+                # I6 — the caller edits the model and saves the same object again: the edit must be honoured (new bytes and
+                # new initializers round-trip; a model that now has an uninitialized initializer is refused before anything is
+                # written), and the edited model is again left untouched
+                if plan is None and not rec["violations"] and cfg.get("edit", "none") != "none":
+                    rec["violations"] += _edited_save(model, expected, cfg, sandbox, torch_2_5, rec)
             # I4 — bounded recovery: faults have stopped, one retry must succeed and round-trip
             if retry and faulted and outcome == "raised" and cfg.get("path_form") != "missingdir" and not unsavable:
                 fs2 = SimFS(sandbox, None, hide_fileno=cfg.get("backend") == "nofileno",
@@ -469,6 +474,85 @@ def run_save(recipe: dict, plan: dict | None, root: str, retry: bool = True) -> 
     finally:
         os.chdir(cwd)
         shutil.rmtree(sandbox, ignore_errors=True)
+
+
+def _edited_save(model, expected: dict, cfg: dict, sandbox: str, torch_2_5, rec: dict) -> list[dict]:
+    import numpy as np
+    import onnx_ir as ir
+
+    graphs = list(model.graphs())
+    g = graphs[0] if cfg.get("edit_where") == "first" else graphs[-1]
+    tag = TAG.get(g.name, g.name)
+    edit = cfg["edit"]
+    expected = dict(expected)
+    F = ir.DataType.FLOAT
+    expect_refusal = False
+    if edit == "new_bytes":
+        cands = [(k, v) for k, v in g.initializers.items() if v.const_value is not None and v.const_value.dtype == F
+                 and type(v.const_value).__name__ == "Tensor" and v.const_value.size > 0]
+        if not cands:
+            return []
+        k, v = cands[0]
+        arr = np.asarray(v.const_value.numpy(), dtype=np.float32).copy()
+        arr = arr + 1.5
+        v.const_value = ir.tensor(arr, name=v.const_value.name)
+        expected[(tag, k)] = arr.tobytes()
+    elif edit == "add_init":
+        arr = np.arange(100, dtype=np.float32) * 0.5
+        v = ir.Value(name="edit_added", shape=ir.Shape([100]), type=ir.TensorType(F), const_value=ir.tensor(arr, name="edit_added"))
+        g.initializers["edit_added"] = v
+    elif edit == "uninit_added":
+        v = ir.Value(name="edit_uninit", shape=ir.Shape([2]), type=ir.TensorType(F))
+        g.initializers["edit_uninit"] = v
+        expect_refusal = True
+    elif edit == "uninit_in_place":
+        cands = [(k, v) for k, v in g.initializers.items() if v.const_value is not None]
+        if not cands:
+            return []
+        cands[-1][1].const_value = None
+        expect_refusal = True
+    elif edit == "uninit_replaced":
+        # an initializer nobody consumes is replaced by an uninitialized value of the same name
+        cands = [(k, v) for k, v in g.initializers.items() if v.const_value is not None and not v.uses() and not v.is_graph_input()
+                 and not v.is_graph_output()]
+        if not cands:
+            return []
+        k, v = cands[0]
+        del g.initializers[k]
+        g.initializers[k] = ir.Value(name=k, shape=v.shape, type=v.type)
+        expect_refusal = True
+    rec["edit"] = edit
+    snap1 = snapshot(model)
+    release_externals(model)
+    d3 = os.path.join(sandbox, "edited")
+    os.makedirs(d3, exist_ok=True)
+    tree1 = _tree(sandbox)
+    path3 = os.path.join(d3, "edited_" + cfg.get("file_name", "model.onnx"))
+    fs5 = SimFS(sandbox, None, hide_fileno=cfg.get("backend") == "nofileno", clock_steps=cfg.get("clock") or DEFAULT_CLOCK)
+    exc5 = None
+    with fs5:
+        try:
+            torch_2_5.save_model_with_external_data(model, path3, verbose=bool(cfg.get("verbose")))
+        except Exception as e:  # noqa: BLE001
+            exc5 = e
+    rec["edited_save"] = "returned" if exc5 is None else f"raised {type(exc5).__name__}"
+    out: list[dict] = []
+    if expect_refusal:
+        if exc5 is None:
+            out.append({"class": "no-refusal", "detail": [f"after the edit '{edit}' (graph {tag}) the model has an uninitialized initializer, "
+                                                          "but a save of the same model object was accepted"]})
+        elif not isinstance(exc5, ValueError):
+            out.append({"class": "no-refusal", "detail": [f"after the edit '{edit}': raised {type(exc5).__name__}, not ValueError"]})
+        elif fs5.events or _tree(sandbox) != tree1:
+            out.append({"class": "wrote-before-refusing", "detail": [f"after the edit '{edit}': {len(fs5.events)} fs events before the refusal"]})
+    elif exc5 is not None:
+        out.append({"class": "edited-save-fails", "detail": [f"after the edit '{edit}': {type(exc5).__name__}: {str(exc5)[:200]}"]})
+    else:
+        out += _roundtrip_violations(check_roundtrip(path3, model, expected), "edited-save-bad-roundtrip")
+    d = diff_snapshot(snap1, snapshot(model))
+    if d:
+        out.append({"class": "model-changed", "detail": [f"after the save that followed the edit '{edit}'"] + d[:5]})
+    return out
 
 
 def _save_decoy(sandbox: str, torch_2_5) -> None:
@@ -543,5 +627,5 @@ def digest(rec: dict) -> str:
     from dsim.common import jdump
 
     keep = {k: rec.get(k) for k in ("outcome", "exc", "events", "fired", "missed", "notes", "violations",
-                                    "retry", "second_save", "resave", "files", "sizes", "clock_reads", "stderr_writes")}
+                                    "retry", "second_save", "resave", "edit", "edited_save", "files", "sizes", "clock_reads", "stderr_writes")}
     return sha(jdump(keep).encode())
